@@ -4,6 +4,7 @@ import JxlModel.Driver.C10
 import JxlModel.Driver.C02
 import JxlModel.Driver.C19
 import JxlModel.Driver.C17
+import JxlModel.Driver.C14
 
 def main (args : List String) : IO UInt32 := do
   match args with
@@ -14,4 +15,6 @@ def main (args : List String) : IO UInt32 := do
   | ["c02", "wrapping"] => Jxl.Driver.C02.main .wrapping; return 0
   | ["c19"] => Jxl.Driver.C19.main; return 0
   | ["c17"] => Jxl.Driver.C17.main; return 0
+  | ["c14"] => Jxl.Driver.C14.main; return 0
+  | ["hdrenc"] => Jxl.Driver.C14.mainEnc; return 0
   | _ => IO.eprintln "usage: jxlmodel <component>"; return 2
